@@ -50,7 +50,9 @@ class RunResult:
         self.status = status
         self.signal = sig
         self.timeout = timeout
-        self.digest = hashlib.sha256(raw.encode()).hexdigest()[:16]
+        # the text of a wiring error lists nodes in an address-dependent order: it is not part of the digest
+        canon = "\n".join(ln.split(',"what"')[0] if ln.startswith('{"k":"wire_error"') else ln for ln in raw.split("\n"))
+        self.digest = hashlib.sha256(canon.encode()).hexdigest()[:16]
 
     @property
     def ok(self):
